@@ -235,7 +235,7 @@ def render_expr(rng, e, parent):
         op = " && " if k == "and" else " || "
         # the parser is left-associative: a right operand of the same operator needs parentheses
         l = render_expr(rng, e[1], p)
-        r = render_expr(rng, e[2], p + 0.5)
+        r = render_expr(rng, e[2], p)
         t = l + op.strip().join([blank(rng, 0.7) or "", blank(rng, 0.7) or ""]) + r if False else l + (blank(rng, 0.7)) + op.strip() + (blank(rng, 0.7)) + r
         if parent > p or (parent == p + 0.5): return "(" + blank(rng) + t + blank(rng) + ")"
         if parent >= 4: return "(" + t + ")"
@@ -376,3 +376,64 @@ def guided_query(rng, v, names=None, filters=False, reg=None, depth=1, maxseg=4)
         cur = step_into(rng, cur, sels[0])
         if kind == "desc" and cur is None: cur = v
     return segs
+
+
+# ---------------------------------------------------------------- associativity normal form
+def norm_assoc(x):
+    """right-nest chains of && and of || (the grammar makes them flat lists; nesting carries no meaning)"""
+    if isinstance(x, list): return [norm_assoc(y) for y in x]
+    if not isinstance(x, tuple): return x
+    if x and x[0] in ("and", "or"):
+        op = x[0]
+        items = []
+
+        def flat(e):
+            if isinstance(e, tuple) and e and e[0] == op: flat(e[1]); flat(e[2])
+            else: items.append(norm_assoc(e))
+        flat(x)
+        acc = items[-1]
+        for it in reversed(items[:-1]): acc = (op, it, acc)
+        return acc
+    return tuple(norm_assoc(y) for y in x)
+
+
+# ---------------------------------------------------------------- grammatical but not necessarily well-typed
+def loose_call(rng, names, reg, depth):
+    if rng.random() < 0.08:
+        name, arity = rng.choice(["nope", "f9", "lengthx"]), rng.randint(0, 2)
+    else:
+        f = rng.choice(reg)
+        name = f[0]
+        arity = len(f[1]) if rng.random() < 0.8 else rng.randint(0, 3)
+    return ("call", name, [loose_arg(rng, names, reg, depth - 1) for _ in range(arity)])
+
+
+def loose_arg(rng, names, reg, depth):
+    r = rng.random()
+    if r < 0.25: return rand_literal(rng)
+    if r < 0.5: return (rng.choice(["rel", "abs"]), rand_singular(rng, names) if rng.random() < 0.5 else rand_segments(rng, names, False, reg, 0, 2))
+    if r < 0.75 and depth > 0: return loose_call(rng, names, reg, depth)
+    return loose_test(rng, names, reg, max(depth, 0))
+
+
+def loose_comparable(rng, names, reg, depth):
+    r = rng.random()
+    if r < 0.35: return rand_literal(rng)
+    if r < 0.7 or depth <= 0: return (rng.choice(["rel", "abs"]), rand_singular(rng, names))
+    return loose_call(rng, names, reg, depth)
+
+
+def loose_test(rng, names, reg, depth):
+    r = rng.random()
+    if depth <= 0 or r < 0.25:
+        if rng.random() < 0.5: return (rng.choice(["rel", "abs"]), rand_segments(rng, names, False, reg, 0, 2))
+        return ("cmp", rng.choice(list(OPS)), loose_comparable(rng, names, reg, depth - 1), loose_comparable(rng, names, reg, depth - 1))
+    if r < 0.4: return ("not", loose_negatable(rng, names, reg, depth - 1))
+    if r < 0.55: return ("and", loose_test(rng, names, reg, depth - 1), loose_test(rng, names, reg, depth - 1))
+    if r < 0.7: return ("or", loose_test(rng, names, reg, depth - 1), loose_test(rng, names, reg, depth - 1))
+    return loose_call(rng, names, reg, depth)
+
+
+def loose_negatable(rng, names, reg, depth):
+    # '!' may precede a query, a function call or a parenthesized logical expression
+    return loose_test(rng, names, reg, depth)
